@@ -30,12 +30,12 @@ fn c11_lz13_wrapper() {
     let (data, len) = sym_input();
     let dep_ok: bool = kani::any();
     unsafe {
-        LZ_RETURNS_OK = dep_ok;
+        LZ.returns_ok = dep_ok;
     }
     let r = keep(LZ13CompressionFormat {}.decompress(&data[..len]));
-    let calls = unsafe { LZ_CALLS };
-    let arg_len = unsafe { LZ_ARG_LEN };
-    let first = unsafe { LZ_ARG_FIRST };
+    let calls = unsafe { LZ.calls };
+    let arg_len = unsafe { LZ.arg_len };
+    let first = unsafe { LZ.arg_first };
     if len < 4 {
         // no complete header: an error, unless the (stubbed) decoder was asked and said Ok
         if calls == 0 {
@@ -91,7 +91,7 @@ fn c11_lz10_wrapper_and_dispatch() {
     let (data, len) = sym_input();
     let dep_ok: bool = kani::any();
     unsafe {
-        LZ_RETURNS_OK = dep_ok;
+        LZ.returns_ok = dep_ok;
     }
     let via_enum: bool = kani::any();
     let r = if via_enum {
@@ -99,16 +99,16 @@ fn c11_lz10_wrapper_and_dispatch() {
     } else {
         keep(LZ10CompressionFormat {}.decompress(&data[..len]))
     };
-    assert!(unsafe { LZ_CALLS } == 1 && unsafe { LZ_ARG_LEN } == len, "C11: LZ10 decompress must hand the whole input to the decoder");
+    assert!(unsafe { LZ.calls } == 1 && unsafe { LZ.arg_len } == len, "C11: LZ10 decompress must hand the whole input to the decoder");
     assert!(r.is_some() == dep_ok, "C11: LZ10 decoder result must be passed through (Err -> Err)");
     std::mem::forget(r);
     // enum dispatch to LZ13: same observable behaviour as the direct call on a wrapped stream
     if len >= 4 && data[0] == 0x13 {
         unsafe {
-            LZ_CALLS = 0;
+            LZ.calls = 0;
         }
         let r13 = keep(CompressionFormat::LZ13(LZ13CompressionFormat {}).decompress(&data[..len]));
-        assert!(unsafe { LZ_CALLS } == 1 && unsafe { LZ_ARG_LEN } == len - 4, "C11: CompressionFormat::LZ13 must behave as LZ13CompressionFormat (wrapper stripped)");
+        assert!(unsafe { LZ.calls } == 1 && unsafe { LZ.arg_len } == len - 4, "C11: CompressionFormat::LZ13 must behave as LZ13CompressionFormat (wrapper stripped)");
         assert!(r13.is_some() == dep_ok);
         std::mem::forget(r13);
     }
